@@ -65,7 +65,7 @@ struct Scenario {
     Window destroy;
     std::atomic<int> submitters_done{0};
     std::atomic<uint64_t> submitted_total{0};
-    std::atomic<uint64_t> cancels_true{0}, cancels_false{0}, cancel_in_batch{0};
+    std::atomic<uint64_t> cancels_true{0}, cancels_false{0}, cancel_in_batch{0}, self_cancels{0};
     std::string desc;
 };
 
@@ -83,6 +83,7 @@ void body(Scenario *Sp, Task *t) {
         if (id == 0) continue;
         uint64_t ct = vc::tick();
         bool ok = S.loop->cancel(id);
+        if (c == t->uid) S.self_cancels.fetch_add(1);
         if (ok) { x.cancel_true.fetch_add(1); x.cancel_tick.store(ct); S.cancels_true.fetch_add(1);
                   if (x.parent == t->parent && x.entry != E_INLOOP) S.cancel_in_batch.fetch_add(1); }
         else S.cancels_false.fetch_add(1);
@@ -132,6 +133,8 @@ void add_children(vh::Rng &r, Scenario &S, int uid, int depth) {
     // cancels: one of my own children (still queued), or a later sibling (same batch when both are runNext/run)
     if (!S.tasks[uid]->children.empty() && r.chance(1, 3))
         S.tasks[uid]->cancels.push_back(r.pick(S.tasks[uid]->children));
+    // a task cancels ITSELF while it is running (it has left the batch: cancel must answer false and nothing else may change)
+    if (r.chance(1, 10)) S.tasks[uid]->cancels.push_back(uid);
     // a child cancels a later sibling (same batch when both went through runNext/run)
     auto &ch = S.tasks[uid]->children;
     for (size_t i = 0; i + 1 < ch.size(); ++i)
@@ -378,6 +381,7 @@ void run_scenario(Scenario &S, bool &nontrivial) {
     vh::counter("cancel_true", S.cancels_true.load());
     vh::counter("cancel_false", S.cancels_false.load());
     vh::counter("cancel_true_same_batch_sibling", S.cancel_in_batch.load());
+    vh::counter("cancel_of_self_while_running", S.self_cancels.load());
     vh::counter("reruns", S.nruns - 1);
     if (n_overlap_begin || n_exit_window || n_gap || S.nruns > 1) nontrivial = true;
 }
